@@ -5,10 +5,13 @@ CONSTANTS
   MaxGo = 3
   DevNoUnmake = FALSE
   DevZeroBudget = FALSE
+  DevRootRepetition = FALSE
+  DevStalePonder = FALSE
 INVARIANT TypeOK
 INVARIANT BoardRestored
 INVARIANT OneAnswer
 INVARIANT AnswerLegal
+INVARIANT PonderFresh
 PROPERTY Answered
 PROPERTY ImplementsObs
 CHECK_DEADLOCK FALSE
